@@ -131,7 +131,7 @@ structure Pattern where
 
 def Pattern.patlen (P : Pattern) : Nat := P.codes.length
 
-inductive PatErr | check | encode | ub | tooLong
+inductive PatErr | check | encode | ub | tooLong | budget
   deriving Repr, DecidableEq
 
 /-- bytes of the C string: up to the first NUL (`C.CString`) -/
@@ -392,7 +392,9 @@ def bestMatch (P : Pattern) (seq : Bytes) (circular : Bool) (begin length : Int)
     let best := bestOf res
     let nerr := best.2.2
     let end_ := best.2.1
-    if best.1 < 0 || best.2.1 > seq.length then .ok (0, end_, nerr, false)
+    -- as repaired by `notes/patches/C10-bestmatch-shifted-start.diff`: a hit that is re-aligned may have a negative
+    -- ("shifted") start; the unrepaired code answered `matched = false` for every best hit with `best[0] < 0`
+    if (best.1 < 0 && (nerr == 0 || !P.hasIndel)) || best.2.1 > seq.length then .ok (0, end_, nerr, false)
     else if nerr == 0 || !P.hasIndel then .ok (best.1, end_, nerr, true)
     else
       let start := max (best.1 - nerr) 0
@@ -496,5 +498,22 @@ def reverseComplement (P : Pattern) : Except PatErr Pattern :=
       | some codes =>
         if codes.length > P.patlen then .error .tooLong
         else .ok ⟨cpat', codes, P.maxerr, P.hasIndel⟩
+
+/-! ## the budget guard of `buildPattern` (second deepening round)
+
+`ManberSub` / `ManberIndel` declare `patword_t r[2 * MAX_PAT_ERR + 2]` and run `for (e = 0, pr = r; e <= emax; e++, pr += 2)`
+reading / writing `pr[0..3]`: the highest index touched is `2 * emax + 3`.  As repaired by
+`notes/patches/C10-budget-overrun.diff`, `buildPattern` rejects `error_max >= MAX_PAT_ERR` first (the unrepaired code accepted
+any budget: with 64 the search died with SIGSEGV — witness in the harness corpus, op `budget`). -/
+
+/-- highest index of `r[]` touched by `ManberSub` / `ManberIndel` with `emax = ppat->maxerr` -/
+def rMaxIndex (emax : Nat) : Nat := 2 * emax + 3
+
+/-- number of words of `patword_t r[2 * MAX_PAT_ERR + 2]` -/
+def rSize : Nat := 2 * Gen.apatMaxPatErr + 2
+
+/-- `MakeApatPattern` / `buildPattern` as repaired: the budget test comes before the pattern is looked at -/
+def makeApatPattern (pat : Bytes) (errormax : Nat) (allowsIndel : Bool) : Except PatErr Pattern :=
+  if errormax ≥ Gen.apatMaxPatErr then .error .budget else compile pat errormax allowsIndel
 
 end ObiVerif.Apat
